@@ -3,6 +3,7 @@ package checks
 import (
 	"encoding/binary"
 	"fmt"
+	"strings"
 
 	"github.com/google/go-tdx-guest/validate"
 
@@ -398,6 +399,7 @@ func runC08(r *mc.Run) {
 		r.Eval(c.id, c.id != "nil-options-fields", kindOf(c.id)+":"+out)
 	})
 	r.SectionDone(mc.Section{Name: "policy-products", Evaluations: int64(done), Exhaustive: done == len(cases)})
+	c08Histories(r, raw0)
 	// degenerate: nil options, wrong quote type
 	for name, fn := range map[string]func() error{
 		"nil-options":  func() error { return safeValidateRaw(raw0, nil) },
@@ -418,4 +420,180 @@ func kindOf(id string) string {
 		}
 	}
 	return id
+}
+
+// c08Histories: every sequence of a fixed length over {reconfigure one option of ONE shared
+// validate.Options value (fresh slice, in-place overwrite, list entry replaced, copy of the value),
+// validate quote k}; every validation in a sequence is judged by the reference semantics applied to the
+// options' contents at that moment, so a verdict that depends on an earlier call or configuration shows.
+func c08Histories(r *mc.Run, raw0 []byte) {
+	type op struct {
+		name string
+		do   func(o **validate.Options)
+		q    int // >=0: validate quote q
+	}
+	other := func(v []byte) []byte {
+		w := append([]byte(nil), v...)
+		w[len(w)-1] ^= 0x5a
+		w[0] ^= 0x01
+		return w
+	}
+	mrtd := append([]byte(nil), raw0[48+136:48+184]...)
+	q1 := append([]byte(nil), raw0...)
+	copy(q1[48+136:], other(mrtd)) // quote 1 carries the "other" MR_TD
+	q2 := append([]byte(nil), raw0...)
+	q2[48+520+63] ^= 0x5a // quote 2: "other" report data (same transformation as other())
+	q2[48+520] ^= 0x01
+	quotes := [][]byte{raw0, q1, q2}
+	var ops []op
+	for _, f := range optFields {
+		f := f
+		v := append([]byte(nil), raw0[f.off:f.off+f.len]...)
+		ops = append(ops,
+			op{f.name + "=equal", func(o **validate.Options) { f.set(*o, append([]byte(nil), v...)) }, -1},
+			op{f.name + "=other", func(o **validate.Options) { f.set(*o, other(v)) }, -1},
+			op{f.name + "=nil", func(o **validate.Options) { f.set(*o, nil) }, -1})
+	}
+	// in-place edits of the slices the options value already holds
+	ops = append(ops,
+		op{"MrTd[in-place]^", func(o **validate.Options) {
+			if b := (*o).TdQuoteBodyOptions.MrTd; len(b) > 0 {
+				b[0] ^= 0x01
+				b[len(b)-1] ^= 0x5a
+			}
+		}, -1},
+		op{"ReportData[in-place]^", func(o **validate.Options) {
+			if b := (*o).TdQuoteBodyOptions.ReportData; len(b) > 0 {
+				b[0] ^= 0x01
+				b[len(b)-1] ^= 0x5a
+			}
+		}, -1})
+	t := func(o **validate.Options) *validate.TdQuoteBodyOptions { return &(*o).TdQuoteBodyOptions }
+	ops = append(ops,
+		op{"AnyMrTd=[equal]", func(o **validate.Options) { t(o).AnyMrTd = [][]byte{append([]byte(nil), mrtd...)} }, -1},
+		op{"AnyMrTd=[other]", func(o **validate.Options) { t(o).AnyMrTd = [][]byte{other(mrtd)} }, -1},
+		op{"AnyMrTd=[other,equal]", func(o **validate.Options) { t(o).AnyMrTd = [][]byte{other(mrtd), append([]byte(nil), mrtd...)} }, -1},
+		op{"AnyMrTd=nil", func(o **validate.Options) { t(o).AnyMrTd = nil }, -1},
+		op{"AnyMrTd[0]=other", func(o **validate.Options) {
+			if l := t(o).AnyMrTd; len(l) > 0 {
+				l[0] = other(mrtd)
+			}
+		}, -1},
+		op{"AnyMrTd[0]=equal", func(o **validate.Options) {
+			if l := t(o).AnyMrTd; len(l) > 0 {
+				l[0] = append([]byte(nil), mrtd...)
+			}
+		}, -1},
+		op{"AnyMrTd[last][in-place]^", func(o **validate.Options) {
+			if l := t(o).AnyMrTd; len(l) > 0 && len(l[len(l)-1]) > 0 {
+				b := l[len(l)-1]
+				b[0] ^= 0x01
+				b[len(b)-1] ^= 0x5a
+			}
+		}, -1})
+	rtmrs := func() [][]byte {
+		var l [][]byte
+		for i := 0; i < 4; i++ {
+			l = append(l, append([]byte(nil), raw0[48+328+48*i:48+376+48*i]...))
+		}
+		return l
+	}
+	ops = append(ops,
+		op{"Rtmrs=equal", func(o **validate.Options) { t(o).Rtmrs = rtmrs() }, -1},
+		op{"Rtmrs=nil", func(o **validate.Options) { t(o).Rtmrs = nil }, -1},
+		op{"Rtmrs[2]=other", func(o **validate.Options) {
+			if l := t(o).Rtmrs; len(l) == 4 {
+				l[2] = other(l[2])
+			}
+		}, -1},
+		op{"Rtmrs[3]=empty", func(o **validate.Options) {
+			if l := t(o).Rtmrs; len(l) == 4 {
+				l[3] = []byte{}
+			}
+		}, -1})
+	tee := append([]byte(nil), raw0[48:64]...)
+	teeUp := append([]byte(nil), tee...)
+	teeUp[5]++
+	pce, qe := binary.LittleEndian.Uint16(raw0[8:]), binary.LittleEndian.Uint16(raw0[10:])
+	ops = append(ops,
+		op{"MinimumTeeTcbSvn=equal", func(o **validate.Options) { t(o).MinimumTeeTcbSvn = append([]byte(nil), tee...) }, -1},
+		op{"MinimumTeeTcbSvn=above", func(o **validate.Options) { t(o).MinimumTeeTcbSvn = append([]byte(nil), teeUp...) }, -1},
+		op{"MinimumTeeTcbSvn=nil", func(o **validate.Options) { t(o).MinimumTeeTcbSvn = nil }, -1},
+		op{"MinimumTeeTcbSvn[5]++", func(o **validate.Options) {
+			if b := t(o).MinimumTeeTcbSvn; len(b) == 16 {
+				b[5]++
+			}
+		}, -1},
+		op{"MinimumPceSvn=equal", func(o **validate.Options) { (*o).HeaderOptions.MinimumPceSvn = pce }, -1},
+		op{"MinimumPceSvn=above", func(o **validate.Options) { (*o).HeaderOptions.MinimumPceSvn = pce + 1 }, -1},
+		op{"MinimumQeSvn=above", func(o **validate.Options) { (*o).HeaderOptions.MinimumQeSvn = qe + 1 }, -1},
+		op{"MinimumQeSvn=0", func(o **validate.Options) { (*o).HeaderOptions.MinimumQeSvn = 0 }, -1},
+		op{"copy-by-value", func(o **validate.Options) { c := **o; *o = &c }, -1})
+	for qi := range quotes {
+		ops = append(ops, op{fmt.Sprintf("validate(q%d)", qi), nil, qi})
+	}
+	inits := []struct {
+		name string
+		mk   func() *validate.Options
+	}{
+		{"empty", func() *validate.Options { return &validate.Options{} }},
+		{"full", func() *validate.Options {
+			o := &validate.Options{}
+			for _, f := range optFields {
+				f.set(o, append([]byte(nil), raw0[f.off:f.off+f.len]...))
+			}
+			o.TdQuoteBodyOptions.AnyMrTd = [][]byte{append([]byte(nil), mrtd...)}
+			o.TdQuoteBodyOptions.Rtmrs = rtmrs()
+			o.TdQuoteBodyOptions.MinimumTeeTcbSvn = append([]byte(nil), tee...)
+			o.HeaderOptions.MinimumPceSvn, o.HeaderOptions.MinimumQeSvn = pce, qe
+			return o
+		}},
+	}
+	depth := 3
+	if r.Thorough() {
+		depth = 4
+	}
+	nv := len(quotes)
+	n := len(ops)
+	// sequences of exactly depth operations whose last one is a validation (shorter ones are their prefixes)
+	total := nv
+	for i := 1; i < depth; i++ {
+		total *= n
+	}
+	for _, in := range inits {
+		in := in
+		done := r.Parallel(total, func(idx int) {
+			seq := make([]int, depth)
+			x := idx
+			seq[depth-1] = n - nv + x%nv
+			x /= nv
+			for i := depth - 2; i >= 0; i-- {
+				seq[i] = x % n
+				x /= n
+			}
+			names := make([]string, depth)
+			for i, k := range seq {
+				names[i] = ops[k].name
+			}
+			id := "history/init:" + in.name + "/" + strings.Join(names, ";")
+			if !r.Want(id) {
+				return
+			}
+			o := in.mk()
+			out := ""
+			for i, k := range seq {
+				if ops[k].q < 0 {
+					ops[k].do(&o)
+					continue
+				}
+				raw := quotes[ops[k].q]
+				pol := polOf(o)
+				err := safeValidateRaw(raw, o)
+				out += c08Judge(r, id, fmt.Sprintf("history:step%d-of-%d", i+1, depth), raw, pol, err) + ";"
+			}
+			r.Eval(id, true, "history:"+out)
+		})
+		r.SectionDone(mc.Section{Name: "reused-options-histories/init:" + in.name, Evaluations: int64(done), MaxDepth: depth, Exhaustive: done == total,
+			Note: fmt.Sprintf("alphabet of %d operations (%d reconfigurations, %d validations), every sequence of length %d ending in a validation", n, n-nv, nv, depth)})
+	}
 }
